@@ -25,7 +25,7 @@ PLANS = {
          "scn.expect.reject", "scn.expect.claims", "scn.model.agrees"],
         [RT, SH],
         [REPLAY_RT_Q, REPLAY_SH, {"driver": "rich", "args": {"n": 700, "depth": 5, "arbsel": 0}}, {"driver": "repotests"}],
-        [REPLAY_RT_T, REPLAY_SH, {"driver": "rich", "args": {"n": 20000, "depth": 8, "arbsel": 0}}, {"driver": "repotests"}],
+        [REPLAY_RT_T, REPLAY_SH, {"driver": "rich", "args": {"n": 6000, "depth": 7, "arbsel": 0}}, {"driver": "repotests"}],
         required={"verify.accept": 300, "verify.view": 300, "scn.expect.claims": 100},
         rule="cases = TLC-generated behaviours of MC_roundtrip replayed over a key/format matrix + seeded random claim trees "
              "(Unicode incl. non-BMP, empty containers, u64/i64/f64, depth <= 8) x strategies x type-consistent selections; "
@@ -37,7 +37,7 @@ PLANS = {
         ["issue.exact", "issue.refs", "issue.refuse.path", "issue.shape", "issue.wellformed", "issue.accept"],
         [RT, SH],
         [REPLAY_RT_Q, REPLAY_SH, {"driver": "rich", "args": {"n": 900, "depth": 5, "arbsel": 0, "only": "issue"}}, {"driver": "repotests"}],
-        [REPLAY_RT_T, REPLAY_SH, {"driver": "rich", "args": {"n": 30000, "depth": 8, "arbsel": 0, "only": "issue"}}, {"driver": "repotests"}],
+        [REPLAY_RT_T, REPLAY_SH, {"driver": "rich", "args": {"n": 10000, "depth": 7, "arbsel": 0, "only": "issue"}}, {"driver": "repotests"}],
         required={"issue.exact": 500, "issue.refuse.path": 3},
         nontrivial_event="Issue",
         rule="cases = Issue events over TLC-generated (claims, strategy) pairs (every subset of paths as a Custom strategy in the "
@@ -49,7 +49,7 @@ PLANS = {
         ["present.ok", "present.exact", "present.weak", "present.jwt", "present.shape", "present.kb.none", "present.kb"],
         [RT, SH],
         [REPLAY_RT_Q, REPLAY_SH, {"driver": "rich", "args": {"n": 700, "depth": 5, "arbsel": 0.4, "rekb": 1, "xfmt": 1}}, {"driver": "history", "args": {"random": 120}}, {"driver": "repotests"}],
-        [REPLAY_RT_T, REPLAY_SH, {"driver": "rich", "args": {"n": 20000, "depth": 8, "arbsel": 0.4, "rekb": 1, "xfmt": 1}}, {"driver": "history", "args": {"random": 3000}}, {"driver": "repotests"}],
+        [REPLAY_RT_T, REPLAY_SH, {"driver": "rich", "args": {"n": 6000, "depth": 7, "arbsel": 0.4, "rekb": 1, "xfmt": 1}}, {"driver": "history", "args": {"random": 3000}}, {"driver": "repotests"}],
         required={"present.exact": 400, "present.weak": 500, "present.kb": 50},
         nontrivial_event="Present",
         rule="cases = Present events: TLC-generated type-consistent selections (every prefix length, one element too many) and seeded "
@@ -134,7 +134,7 @@ PLANS.update({
          {"driver": "history", "args": {"random": 6, "only": "holder"}}],
         [{"driver": "replay", "scn": "kb_wide", "args": {"n": 100000, "matrix": 0}}, {"driver": "replay", "scn": "kb_deep", "args": {"n": 6000, "matrix": 0}},
          {"driver": "replay", "scn": "dk_sim", "args": {"n": 8000, "matrix": 0}}, {"driver": "attack", "args": {"n": 24, "family": "kb", "stride": 1}},
-         {"driver": "rich", "args": {"n": 10000, "depth": 6, "arbsel": 0, "kb": 1, "xfmt": 1}}, {"driver": "history", "args": {"random": 200, "only": "holder"}}],
+         {"driver": "rich", "args": {"n": 5000, "depth": 6, "arbsel": 0, "kb": 1, "xfmt": 1}}, {"driver": "history", "args": {"random": 200, "only": "holder"}}],
         required={"verify.lenient.kb": 300, "verify.lenient.args": 50, "verify.accept": 20, "present.kb": 100,
                   **{"verify.kb.only." + f: 20 for f in ("absent", "sig", "typ", "aud", "nonce", "sdh")}},
         rule="cases = behaviours of MC_kb (move / strip / alter / re-sign / forge the KB-JWT, change the disclosure list afterwards, six (aud, nonce) expectations) replayed "
@@ -148,7 +148,7 @@ PLANS.update({
         [{"driver": "replay", "scn": "kb_wide", "args": {"n": 400, "matrix": 0}}, {"driver": "attack", "args": {"n": 12, "family": "all", "stride": 40}},
          {"driver": "rich", "args": {"n": 300, "depth": 4, "arbsel": 0.2, "xfmt": 1, "rekb": 1}}, {"driver": "history", "args": {"random": 100, "only": "holder"}}],
         [{"driver": "replay", "scn": "kb_wide", "args": {"n": 100000, "matrix": 0}}, {"driver": "replay", "scn": "kb_deep", "args": {"n": 6000, "matrix": 0}}, {"driver": "attack", "args": {"n": 60, "family": "all", "stride": 3}},
-         {"driver": "rich", "args": {"n": 10000, "depth": 7, "arbsel": 0.2, "xfmt": 1, "rekb": 1}}, {"driver": "history", "args": {"random": 3000, "only": "holder"}}],
+         {"driver": "rich", "args": {"n": 5000, "depth": 6, "arbsel": 0.2, "xfmt": 1, "rekb": 1}}, {"driver": "history", "args": {"random": 3000, "only": "holder"}}],
         required={"pair.format": 1000, "pair.present": 150, "pair.holder": 100, "holder.new": 300},
         rule="cases = pairs (Compact, JSON) of the same abstract message: every Verify of the replayed MC_kb behaviours and of the tampering families (honest and tampered), "
              "JSON spelled with kb_jwt absent / null / an unknown member; holders built from both forms of random SD-JWTs presenting the same selection; distinct = distinct pairs",
@@ -243,7 +243,7 @@ PLANS["C13"] = P(
     ["issue.refuse.reserved", "issue.accept", "hist.expect"],
     [{"module": "MC_reserved", "quick": "MC_reserved_quick.cfg", "thorough": "MC_reserved.cfg", "timeout": {"quick": 300, "thorough": 900}}],
     [{"driver": "replay", "scn": "MC_reserved", "args": {"n": 800, "matrix": 1}}, {"driver": "rich", "args": {"n": 600, "depth": 5, "only": "issue", "plant": 0.6}}, {"driver": "history", "args": {"random": 150, "only": "issuer"}}],
-    [{"driver": "replay", "scn": "MC_reserved", "args": {"n": 100000, "matrix": 1}}, {"driver": "rich", "args": {"n": 30000, "depth": 8, "only": "issue", "plant": 0.6}}, {"driver": "history", "args": {"random": 3000, "only": "issuer"}}],
+    [{"driver": "replay", "scn": "MC_reserved", "args": {"n": 100000, "matrix": 1}}, {"driver": "rich", "args": {"n": 10000, "depth": 7, "only": "issue", "plant": 0.6}}, {"driver": "history", "args": {"random": 3000, "only": "issuer"}}],
     required={"issue.refuse.reserved": 500, "issue.accept": 300, "hist.expect": 500},
     nontrivial_event="Issue",
     rule="cases = Issue calls: a member named _sd or ... planted at every object position (root, nested, inside arrays, inside values that become hidden, under iat) of every tree of "
@@ -295,7 +295,7 @@ PLANS["C12"] = P(
     ["issue.decoys", "issue.refs", "issue.exact", "present.exact", "verify.view", "verify.accept", "order.leak"],
     [RT],
     [REPLAY_RT_Q, {"driver": "rich", "args": {"n": 500, "depth": 5, "arbsel": 0, "decoy": 1}}, {"driver": "rich", "args": {"n": 700, "depth": 4, "only": "issue"}}, {"driver": "history", "args": {"random": 150, "only": "issuer"}}],
-    [REPLAY_RT_T, {"driver": "rich", "args": {"n": 10000, "depth": 8, "arbsel": 0, "decoy": 1}}, {"driver": "rich", "args": {"n": 30000, "depth": 6, "only": "issue"}}, {"driver": "history", "args": {"random": 3000, "only": "issuer"}}],
+    [REPLAY_RT_T, {"driver": "rich", "args": {"n": 3000, "depth": 7, "arbsel": 0, "decoy": 1}}, {"driver": "rich", "args": {"n": 10000, "depth": 6, "only": "issue"}}, {"driver": "history", "args": {"random": 3000, "only": "issuer"}}],
     required={"issue.decoys": 1000, "verify.view": 500},
     aggregate={"order.leak": _order_leak},
     nontrivial_event="Issue",
@@ -362,7 +362,7 @@ PLANS["C07"] = P(
      # instants around the leeway and the window's edge (arithmetic on exp / nbf / now in code that runs after validation)
      {"driver": "rich", "args": {"n": 250, "depth": 2, "arbsel": 0, "time": 1}}],
     [{"driver": "fuzz", "args": {"n": 2500}}, {"driver": "replay", "scn": "MC_malformed", "args": {"n": 100000, "matrix": 0}},
-     {"driver": "rich", "args": {"n": 8000, "depth": 7, "arbsel": 0.7, "xfmt": 1}},
+     {"driver": "rich", "args": {"n": 4000, "depth": 7, "arbsel": 0.7, "xfmt": 1}},
      {"driver": "attack", "args": {"n": 36, "family": "all", "stride": 6}},
      {"driver": "rich", "args": {"n": 5000, "depth": 3, "arbsel": 0, "time": 1}}],
     required={"total": 20000},
